@@ -246,7 +246,7 @@ def c11(pid, tier, seed, t0):
     return run_stages(pid, tier, seed, t0, "exploration", stages,
                       required=("binary_repetition_first_of_tail_fen_clock_0", "binary_repetition_first_of_tail_after_capture",
                                 "binary_repetition_first_of_tail_after_pawn_move", "binary_repetition_later_in_tail",
-                                "binary_repetition_second_go_on_one_position_command", "tail_positions_audited",
+                                "binary_repetition_second_go_on_one_position_command", "tail_positions_audited", "binary_position_overwrite_comparisons",
                                 "repetitions_observed", "repetition_of_oldest_position_in_window",
                                 "clock_ge_100_observed", "terminal_at_clock_ge_100", "fen_start_with_nonzero_clock",
                                 "null_moves_in_history", "bare_kings", "king_and_minor",
@@ -327,7 +327,8 @@ def c04(pid, tier, seed, t0):
         H("tt-model-checked", "c19", "checked", args=["--histories", "96", "--max-ops", "600", "--no-size-sweep"], group="c04-tt"),
     ]
     return run_stages(pid, tier, seed, t0, "exploration", stages,
-                      required=SEARCH_FEATURES + ("searches", "binary_release_recursion_100_plies_plus", "binary_debug_recursion_66_plies_plus"),
+                      required=SEARCH_FEATURES + ("searches", "binary_release_recursion_100_plies_plus", "binary_debug_recursion_66_plies_plus",
+                                                  "binary_searches_after_games_of_800_plies_or_more"),
                       assumptions=["termination: every search has a logical bound (depth, time, or a stop request "
                                    "at a given poll via hook H1); a stage watchdog firing is inconclusive",
                                    "harness threads have large stacks; exhaustion of the real 2 MiB search-thread "
@@ -363,7 +364,7 @@ def c09(pid, tier, seed, t0):
 def c12(pid, tier, seed, t0):
     stages = [H("determinism-checked", "c12", "checked"), P("ucinewgame-binary", _pm2("c12_stage"))]
     return run_stages(pid, tier, seed, t0, "exploration", stages,
-                      required=("binary_ucinewgame_right_after_bestmove_with_delay", "binary_ucinewgame_then_go_without_position", "binary_fresh_engine_without_any_preamble", "lockstep_searches_compared", "reset_then_compare_with_fresh", "second_run_under_load",
+                      required=("binary_ucinewgame_right_after_bestmove_with_delay", "binary_ucinewgame_then_go_without_position", "binary_fresh_engine_without_any_preamble", "lockstep_searches_compared", "searches_begun_seconds_after_their_stopwatch", "reset_then_compare_with_fresh", "second_run_under_load",
                                 "long_chain_ge_255_generations", "hash_1mb", "hash_64mb"),
                       assumptions=["transcript = best move + depth, seldepth, score, nodes, hashfull, line of every "
                                    "iteration; time and nps excluded"])
